@@ -13,6 +13,7 @@ import (
 	klient "github.com/flant/kube-client/client"
 	"github.com/flant/shell-operator/pkg/hook/types"
 	objectpatch "github.com/flant/shell-operator/pkg/kube/object_patch"
+	kubeeventsmanager "github.com/flant/shell-operator/pkg/kube_events_manager"
 	"github.com/flant/shell-operator/pkg/task"
 	"github.com/flant/shell-operator/pkg/task/queue"
 )
@@ -32,6 +33,10 @@ func (op *ShellOperator) VerifBootstrapMainQueue() {
 	op.bootstrapMainQueue(op.TaskQueues)
 }
 
+// VerifWrapKubeEventsManager, when set, wraps the kube events manager handed to the hook manager
+// (fault injection: AddMonitor failing a number of times).
+var VerifWrapKubeEventsManager func(kubeeventsmanager.KubeEventsManager) kubeeventsmanager.KubeEventsManager
+
 // VerifAssemble does what Init does, minus real kube clients, debug socket and flag parsing:
 // the given (fake) client is used for informers and for the object patcher.
 // Conversion webhook manager: the body of initConversionWebhookManager without Start()
@@ -44,6 +49,9 @@ func VerifAssemble(ctx context.Context, kubeClient *klient.Client, hooksDir stri
 	op.KubeClient = kubeClient
 	op.ObjectPatcher = objectpatch.NewObjectPatcher(kubeClient, logger)
 	op.SetupEventManagers()
+	if VerifWrapKubeEventsManager != nil {
+		op.KubeEventsManager = VerifWrapKubeEventsManager(op.KubeEventsManager)
+	}
 
 	registerHookMetrics(op.HookMetricStorage)
 	registerHookMetrics(op.MetricStorage)
